@@ -517,6 +517,42 @@ def p3(facts, tier):
 
 
 # ---------------------------------------------------------------------------------------------
+# P8 (C06): derived readers never fill a value with restricted bit patterns from raw stream bytes
+
+@rule("P8", ["C06"], floor=300, doc="a derived Deserialize impl fills memory from raw stream bytes (bulk read / region read) only for types of which "
+      "every bit pattern is a valid value; bool, char and enum fields of a stand-alone value are always read through their checked readers")
+def p8(facts, tier):
+    W = wire.WireAnalysis(facts)
+    orc = packed.Oracle(facts)
+    for m in corpus_types(facts):
+        ty = m["id"]
+        f = impl_fn(facts, ty, DES, "deserialize")
+        if f is None:
+            continue
+        im = f["impl"]
+        ts = wire.canon_generics(im["self_ty"], im["generics"])
+        lits, guards = W.probe([f], [ts])
+        bad = None
+        nraw = 0
+        for v in sorted(set([0, m.get("cur_version", 0)])):
+            l, _, _, _ = W.lang(f, v, {g: True for g in guards}, ts, expand=False)
+            raws = [s for s in rx.symbols(l) if isinstance(s, tuple) and s[0] in RAW]
+            nraw += len(raws)
+            for s in raws:
+                target = s[1] if len(s) > 1 and isinstance(s[1], str) else ty
+                ok, why = orc.all_bits_valid(target if target in facts.layouts else ty)
+                if not ok and bad is None:
+                    bad = (v, s, why)
+        if bad:
+            v, s, why = bad
+            yield ob(["C06"], "P8", ty, "violation", where(f), f"derived reader of {ty} (version {v}) fills memory with raw stream bytes ({s[0]}) although "
+                     f"the filled type contains a `{why}`: untrusted bytes become invalid values (undefined behaviour) instead of an error")
+        else:
+            yield ob(["C06"], "P8", ty, "pass", where(f), "no raw read" if not nraw else f"{nraw} raw read(s), each of a type whose every bit pattern is valid",
+                     nontrivial=bool(nraw))
+
+
+# ---------------------------------------------------------------------------------------------
 # P6 (C11): the layout facts recorded in derived schemas are the compiler's facts
 
 def str_lit(n):
